@@ -187,3 +187,89 @@ Lemma cross_nonvacuous :
 Proof.
   split; [repeat constructor | vm_compute; reflexivity].
 Qed.
+
+(* ------------------------------------------------------------------ several libraries merged under one prefix *)
+Local Close Scope N_scope.
+
+Definition set_ns_l (ns : str) (L : lschema) : lschema :=
+  mkL ns (l_library L) (l_version L) (l_with_std L) (l_merged L) (l_elem_domain L) (l_table L).
+
+(* equal except for the namespace *)
+Definition same_but_ns (L L' : lschema) : Prop := set_ns_l [] L = set_ns_l [] L'.
+
+Definition opt_same (a b : option lschema) : Prop :=
+  match a, b with
+  | Some x, Some y => same_but_ns x y
+  | None, None => True
+  | _, _ => False
+  end.
+
+Lemma load_file_same isa rp f into into' :
+  opt_same into into' ->
+  match load_file isa rp f into, load_file isa rp f into' with
+  | LOk a, LOk b => same_but_ns a b
+  | LErr e, LErr e' => e = e'
+  | _, _ => False
+  end.
+Proof.
+  destruct into as [x|], into' as [y|]; intro H; simpl in H; try contradiction.
+  - destruct x as [ns lib ver ws mg ed T], y as [ns' lib' ver' ws' mg' ed' T'].
+    unfold same_but_ns, set_ns_l in H. simpl in H. injection H as H1 H2 H3 H4 H5 H6. subst.
+    unfold load_file. cbn [l_with_std l_table l_library l_version l_elem_domain l_ns].
+    destruct ws' as [|c w]; [reflexivity|].
+    destruct (negb (str_eqb (f_with_std f) (c :: w))); [reflexivity|].
+    destruct (add_nodes (f_library f) true (negb (f_unmerged f)) _ true (f_nodes f) [] T'); simpl; try unfold same_but_ns, set_ns_l; reflexivity.
+  - destruct (load_file isa rp f None); try unfold same_but_ns; reflexivity.
+Qed.
+
+Section Merged.
+Variable isa : N -> bool.
+Variable fixed : bool.
+Variable rp : repo.
+
+Lemma load_sub_same v ns into into' L :
+  opt_same into into' ->
+  load_sub isa fixed rp v ns into = LOk L ->
+  exists L', load_sub isa fixed rp v [] into' = LOk L' /\ same_but_ns L L'.
+Proof.
+  intros Hs. unfold load_sub. destruct v as [|c v']; [discriminate|].
+  destruct (negb (valid_version _)); [discriminate|].
+  destruct (lookup (c :: v') rp) as [f|]; [|discriminate].
+  pose proof (load_file_same isa rp f into into' Hs) as Hf.
+  destruct (load_file isa rp f into) as [a|e]; [|discriminate].
+  destruct (load_file isa rp f into') as [b|e']; [|contradiction]. simpl.
+  destruct ns as [|d ns'].
+  - intro H. injection H as <-. exists b. split; [reflexivity | exact Hf].
+  - destruct (set_schema_prefix isa fixed (d :: ns')) as [p|]; [|discriminate].
+    intro H. injection H as <-. exists b. split; [reflexivity|].
+    unfold same_but_ns in *. unfold set_ns_l in *. simpl. exact Hf.
+Qed.
+
+Lemma load_rest_same vs ns : forall first first' L,
+  same_but_ns first first' ->
+  load_rest isa fixed rp vs ns first = LOk L ->
+  exists L', load_rest isa fixed rp vs [] first' = LOk L' /\ same_but_ns L L'.
+Proof.
+  induction vs as [|v vs IH]; intros first first' L Hs H; simpl in *.
+  - injection H as <-. exists first'. split; [reflexivity | exact Hs].
+  - destruct (load_sub isa fixed rp v ns (Some first)) as [a|] eqn:Ea; [|discriminate]. simpl in H.
+    destruct (load_sub_same v ns (Some first) (Some first') a Hs Ea) as [b [Eb Hab]]. rewrite Eb. simpl.
+    assert (Ht : l_table b = l_table a).
+    { unfold same_but_ns, set_ns_l in Hab. injection Hab as _ _ _ _ _ Ht. symmetry. exact Ht. }
+    rewrite Ht. destruct (t_dups (l_table a)); [|discriminate]. exact (IH a b L Hab H).
+Qed.
+
+(* _load_schema_version for "ns:v0,v1,..." and for "v0,v1,...": the merged schema is the same except for its
+   namespace -- in particular the same tag table (same entries, same lookups, same recorded duplicates).
+   (Only the tag section is modelled; the unit sections are covered by the implementation-side oracle.) *)
+Theorem merged_under_prefix_same_schema v0 vs ns L :
+  lbind (load_sub isa fixed rp v0 ns None) (load_rest isa fixed rp vs ns) = LOk L ->
+  exists L', lbind (load_sub isa fixed rp v0 [] None) (load_rest isa fixed rp vs []) = LOk L' /\
+             same_but_ns L L' /\ l_table L' = l_table L.
+Proof.
+  intro H. destruct (load_sub isa fixed rp v0 ns None) as [a|] eqn:Ea; [|discriminate]. simpl in H.
+  destruct (load_sub_same v0 ns None None a I Ea) as [b [Eb Hab]]. rewrite Eb. simpl.
+  destruct (load_rest_same vs ns a b L Hab H) as [L' [E' HL]]. exists L'. split; [exact E'|]. split; [exact HL|].
+  unfold same_but_ns, set_ns_l in HL. injection HL as _ _ _ _ _ Ht. symmetry. exact Ht.
+Qed.
+End Merged.
